@@ -217,7 +217,8 @@ def generate(rng, tier):
         if c < 0.5:
             ops.append({"op": "bin", "seed": rng.getrandbits(32), "mode": rng.choice(["sum", "avg"]),
                         "scalar": rng.random() < 0.25, "stack": rng.random() < 0.5,
-                        "src": rng.choice(["float", "float", "dn", "dn", "bool"])})
+                        "src": rng.choice(["float", "float", "dn", "dn", "bool"]),
+                        "nd": rng.choice(["asis", "asis", "asis", "1d", "4d"])})
         else:
             ops.append({"op": "bayer", "cfa": rng.choice(["rggb", "bggr"]), "as_int": rng.random() < 0.5,
                         "signed": rng.random() < 0.25,
@@ -228,7 +229,8 @@ def generate(rng, tier):
             mode = "off"                                    # every sample of every frame is then decided exactly
     return {"prop": PROP, "tier": tier, "config": {"mode": mode, "rng_seed": rng.getrandbits(48),
                                                     "reuse_detector": rng.random() < 0.6,
-                                                    "precision0": 64 if rng.random() < 0.85 else 32},
+                                                    "precision0": 64 if rng.random() < 0.85 else 32,
+                                                    "frames_np": rng.random() < 0.15},
             "det": det, "img": img, "ops": ops}
 
 
@@ -389,7 +391,10 @@ def execute(plan):
             det = make_det()
         # the caller's own array is handed over (no defensive copy), as user code does
         held = image.copy()
-        out = det.expose(image, frames=d["frames"])
+        fr = d["frames"]
+        if cfg.get("frames_np"):
+            fr = np.int64(fr)              # the frame count as a numpy integer
+        out = det.expose(image, frames=fr)
         if not (image.shape == held.shape and image.dtype == held.dtype and np.array_equal(image, held)):
             viol("input-mutated", "expose", what="the aerial image passed to expose() was modified in place")
             image[...] = held
@@ -607,7 +612,13 @@ def execute(plan):
             src = op.get("src", "float")
             base = frame_f if src == "float" else (dn1 if src == "dn" else (dn1 > np.median(dn1)))
             x = base if (op["stack"] or base.ndim == 2) else base[0]
+            nd = op.get("nd", "asis")
+            if nd == "1d":
+                x = np.ascontiguousarray(x).reshape(-1)              # a 1-D signal
+            elif nd == "4d" and x.ndim <= 3:
+                x = np.ascontiguousarray(x).reshape((1,) * (4 - x.ndim) + x.shape)   # a 4-D stack
             bump(probes, f"bin_src_{src}")
+            bump(probes, f"bin_ndim_{x.ndim}")
             if op["seed"] % 5 == 0:
                 x = np.asfortranarray(x)                      # another memory layout, same samples
                 bump(probes, "bin_fortran_input")
